@@ -13,9 +13,12 @@ open Solstat.Gen T View
 
 /-! ## every fallible site of the current source is accounted for -/
 
-/-- the regenerated inventory equals the reviewed classification: a new `unwrap`, index, `parse`,
-`panic!`, cast or arithmetic site anywhere in the non-test code breaks this -/
-theorem panic_sites_accounted : Gen.panicSites = accountedSites.map (·.1) := by decide +kernel
+/-- every site of the regenerated inventory is in the reviewed classification: a new `unwrap`, `expect`, index,
+`parse`, `panic!` or arithmetic site anywhere in the non-test code breaks this (sites that disappeared from the
+code leave a stale row in the classification, which is harmless; `as` conversions cannot abort and are listed
+separately as `Gen.castSites`) -/
+theorem panic_sites_accounted : Gen.panicSites.all (fun s => (accountedSites.map (·.1)).contains s) = true := by
+  decide +kernel
 theorem inventory_residue_empty : Gen.inventoryResidue = [] := by decide
 
 /-! ## `node.expression().unwrap()` and friends: walker results have the requested outer kind -/
